@@ -63,7 +63,7 @@ def tool_error_functions(diags, linemap, genfile):
             continue
         hit = False
         for s in d.get('spans', []):
-            if os.path.basename(s.get('file_name', '')) != base:
+            if not _same_gen(s.get('file_name', ''), base):
                 continue
             md = linemap.get(s['line_start'])
             if md and md.get('fn'):
@@ -81,6 +81,16 @@ def _run(genfile, seed, threads):
     t0 = time.time()
     p = subprocess.run(cmd, capture_output=True, text=True, cwd=VERIF)
     return cmd, p.returncode, p.stdout, p.stderr, time.time() - t0
+
+
+def _same_gen(file_name, base):
+    """results are cached by the CONTENT of the generated file, which may have been produced under another name
+    (lzma_rs_verus<tag>.rs, spec_only<tag>.rs): any generated file of the same family counts as `the` file"""
+    b = os.path.basename(file_name)
+    if b == base:
+        return True
+    fam = lambda x: 'spec' if x.startswith('spec_only') else ('crate' if x.startswith('lzma_rs_verus') else x)
+    return fam(b) == fam(base) and fam(b) in ('spec', 'crate')
 
 
 def run_verus(genfile, seed=0, threads=16, use_cache=True):
@@ -157,7 +167,7 @@ def classify(diags, linemap, genfile):
         msg = d.get('message', '')
         if msg.startswith('aborting due to') or msg.startswith('For more information'):
             continue
-        spans = [s for s in d.get('spans', []) if os.path.basename(s.get('file_name', '')) == base]
+        spans = [s for s in d.get('spans', []) if _same_gen(s.get('file_name', ''), base)]
         prim = [s for s in d.get('spans', []) if s.get('is_primary')]
         if RLIMIT_MSG.search(msg):
             kind = 'rlimit'
@@ -178,7 +188,7 @@ def classify(diags, linemap, genfile):
         clause_text = None
         pline = None
         for s in prim:
-            if os.path.basename(s.get('file_name', '')) == base:
+            if _same_gen(s.get('file_name', ''), base):
                 pline = s['line_start']
         # function: from primary span line; else any span line
         cand = ([pline] if pline else []) + [s['line_start'] for s in spans]
@@ -211,7 +221,7 @@ def classify(diags, linemap, genfile):
                     text = s['text'][0]['text'].strip()
         # precondition of a std/vstd function (span outside the generated file) => safety
         if 'precondition' in msg and kind == 'functional':
-            outside = [s for s in d.get('spans', []) if os.path.basename(s.get('file_name', '')) != base]
+            outside = [s for s in d.get('spans', []) if not _same_gen(s.get('file_name', ''), base)]
             callee_md = None
             for s in spans:
                 if not s.get('is_primary'):
@@ -339,7 +349,7 @@ def narrow(genfile, failures, linemap, timeout=900):
                 continue
             if d.get('message', '').startswith('diagnostics via expansion'):
                 for s in d.get('spans', []):
-                    if os.path.basename(s.get('file_name', '')) == base:
+                    if _same_gen(s.get('file_name', ''), base):
                         leaf.append((s['line_start'], s.get('line_end', s['line_start'])))
         for f in fs:
             obs, props, ok = [], set(), True
@@ -366,6 +376,43 @@ def narrow(genfile, failures, linemap, timeout=900):
                 f['clause_props'] = sorted(props)
                 f['clause_text'] = f.get('narrowed_text') or f.get('clause_text')
     return failures
+
+
+def first_error(genfile, fn, module, linemap, seeds=(0, 1), timeout=600):
+    """A function that reports named failing obligations AND an exhausted resource limit: the verifier is asked for the
+    first error only (--multiple-errors 1), alone, under two solver seeds.  If both runs stop at a named obligation
+    without running out of resources, and agree on it, the obligation fails with resources to spare; the exhaustion
+    belongs to the search for FURTHER errors after it.  Returns the failures of the first run, or None (no conclusion)."""
+    tail = re.sub(r'@\w+::', '::', fn)
+    if module and tail.startswith(module + '::'):
+        tail = tail[len(module) + 2:]
+    got = []
+    for sd in seeds:
+        cmd = ['verus', genfile, '--cfg', 'feature="stream"', '--cfg', 'feature="raw_decoder"', '--no-lifetime',
+               '--triggers-mode', 'silent', '--multiple-errors', '1', '--error-format=json',
+               '--smt-option', 'smt.random_seed=%d' % sd, '--verify-function', '*' + tail]
+        cmd += ['--verify-only-module', module] if module and module not in ('spec', 'prelude') else ['--verify-root']
+        err = _run_cached(genfile, 'first%d' % sd, fn, cmd, timeout)
+        if err is None:
+            return None
+        diags = []
+        for line in err.splitlines():
+            line = line.strip()
+            if line.startswith('{'):
+                try:
+                    diags.append(json.loads(line))
+                except Exception:
+                    pass
+        fl, te = classify(diags, linemap, genfile)
+        fl = [f for f in fl if f.get('fn') == fn]
+        nver, nerr = _counts(err)
+        if te or not fl or any(f['kind'] == 'rlimit' for f in fl) or nver is None or (nver == 0 and nerr == 0):
+            return None
+        got.append(fl)
+    key = lambda fl: sorted((f.get('obligation'), f.get('line')) for f in fl)
+    if all(key(g) == key(got[0]) for g in got):
+        return got[0]
+    return None
 
 
 def retry_rlimit(genfile, fn, module, linemap, scale=3, timeout=1200):
